@@ -75,6 +75,8 @@ class World:
         self.root = str(root)
         self.fine = fine
         self.iplocks = {}            # (device, inode) of a lock file -> owning simulated pid
+        self.token_reads = 0
+        self.fault = None
         self.ipfds = {}              # (pid, path) -> [(descriptor, key)]: lock files a process has open
         self.next_pid = 1000
         self.events = []             # observation log
@@ -668,8 +670,18 @@ def _refuse_if_dead():
         raise greenlet.GreenletExit()
 
 
+NEXT_FAULT = None     # ("token-read", n): the n-th read of a token file in the next world fails with EIO (set by explore.execute)
+
+
 def v_open(self, mode="r", *a, **k):
     if not _tracked(self) or not any(c in mode for c in "wax+"):
+        if W is not None and str(self).endswith(".token") and _tracked(self):
+            # fault dimension: a read of a token file (another process's, on a shared file system) fails with an I/O error
+            W.token_reads += 1
+            if W.fault == ("token-read", W.token_reads):
+                import errno
+                W.events.append(("FAULT", "token-read", W.token_reads, os.path.basename(str(self))[:8]))
+                raise OSError(errno.EIO, "Input/output error", str(self))
         return _orig["open"](self, mode, *a, **k)
     _refuse_if_dead()
     existed = os.path.exists(self)
@@ -851,6 +863,8 @@ def run_world(mains, schedule=None, policy="FIFO", fine=False, kill=None, max_st
         policy, deporder = policy[:-4], "rev"
     hub = Hub(schedule, policy, max_steps, kill, on_step, expect_widths)
     world = World(wd, fine)
+    global NEXT_FAULT
+    world.fault, NEXT_FAULT = NEXT_FAULT, None
     world.deporder = deporder
     HUB, W = hub, world
     result = {"main_exc": {}, "returned": []}
@@ -877,6 +891,7 @@ def run_world(mains, schedule=None, policy="FIFO", fine=False, kill=None, max_st
             err = e
         result["events"] = world.events
         result["widths"] = hub.widths
+        result["token_reads"] = world.token_reads
         result["chosen"] = hub.chosen
         result["hung"] = sorted(a.name for a in hub.actors if not a.dead and a.proc.alive and a.kind in ("main", "job"))
         result["blocked"] = sorted(a.name for a in hub.actors if not a.dead and a.proc.alive and a.kind not in ("loop", "observer"))
